@@ -27,7 +27,7 @@ type Mut struct {
 // extractors with zip fixtures).
 var mutOps = []string{
 	"trunc", "delline", "dupline", "swapline", "deltok", "duptok", "swaptok", "scalar", "splice",
-	"flip", "setbyte", "insert", "crlf", "crcrlf", "eol", "bom", "dropnl", "nest", "repeat", "delrange", "strprefix", "strsuffix", "strempty",
+	"flip", "setbyte", "insert", "crlf", "crcrlf", "eol", "bom", "dropnl", "subdel", "elfsec", "nest", "repeat", "delrange", "strprefix", "strsuffix", "strempty",
 }
 
 // lineEnds replace the terminator of one line (op "eol").
@@ -307,6 +307,21 @@ func applyMut(b []byte, m Mut) []byte {
 			end--
 		}
 		return replaceSpan(b, [2]int{end, x[1]}, []byte(lineEnds[mod(m.B, len(lineEnds))]))
+	case "subdel":
+		// inside scalar A, delete a contiguous range of character-class runs (letters, digits,
+		// each punctuation character repeated): B selects the range
+		ss := scalarSpans(b)
+		if len(ss) == 0 {
+			return b
+		}
+		sp := ss[mod(m.A, len(ss))]
+		rs := runRanges(b, sp)
+		if len(rs) == 0 {
+			return b
+		}
+		return cut(b, rs[mod(m.B, len(rs))])
+	case "elfsec":
+		return elfSectionMutate(b, m)
 	case "bom":
 		return append([]byte("\xef\xbb\xbf"), b...)
 	case "dropnl":
@@ -437,4 +452,103 @@ func zipMutate(b []byte, m Mut) []byte {
 		es = append(es[:i], es[i+1:]...)
 	}
 	return writeZip(es, false)
+}
+
+// classRuns splits b[sp[0]:sp[1]] (without surrounding quotes) into runs of one character class:
+// letters, digits, or one punctuation character repeated.
+func classRuns(b []byte, sp [2]int) [][2]int {
+	lo, hi := sp[0], sp[1]
+	if hi-lo >= 2 && (b[lo] == '"' || b[lo] == '\'') && b[hi-1] == b[lo] {
+		lo, hi = lo+1, hi-1
+	}
+	if hi-lo > 64 {
+		hi = lo + 64
+	}
+	class := func(c byte) int {
+		switch {
+		case c >= '0' && c <= '9':
+			return 1
+		case c >= 'a' && c <= 'z', c >= 'A' && c <= 'Z', c >= 0x80:
+			return 2
+		}
+		return 256 + int(c)
+	}
+	var out [][2]int
+	for i := lo; i < hi; {
+		j := i + 1
+		for j < hi && class(b[j]) == class(b[i]) {
+			j++
+		}
+		// a run of one punctuation character is also offered one character at a time
+		out = append(out, [2]int{i, j})
+		i = j
+	}
+	return out
+}
+
+// runRanges lists the spans that op "subdel" can delete inside a scalar: every contiguous range
+// of class runs (at most 8 runs are considered), plus single characters of punctuation runs.
+func runRanges(b []byte, sp [2]int) [][2]int {
+	runs := classRuns(b, sp)
+	if len(runs) > 8 {
+		runs = runs[:8]
+	}
+	var out [][2]int
+	for i := range runs {
+		for j := i; j < len(runs); j++ {
+			out = append(out, [2]int{runs[i][0], runs[j][1]})
+		}
+		if runs[i][1]-runs[i][0] > 1 {
+			out = append(out, [2]int{runs[i][0], runs[i][0] + 1})
+		}
+	}
+	return out
+}
+
+// elfHostile are the values op "elfsec" writes into a section header field.
+var elfHostile = []uint64{0, 1, 1 << 31, 1<<47 + 1, 1 << 50, 1<<63 - 1, ^uint64(0), 0x7fffffff}
+
+// elfSectionMutate overwrites one field of one section header of a little-endian ELF64 file:
+// A selects the section, B%4 the field (offset, size, link+info, entsize), S[0] the value.
+func elfSectionMutate(b []byte, m Mut) []byte {
+	if len(b) < 64 || string(b[:4]) != "\x7fELF" || b[4] != 2 || b[5] != 1 {
+		return b
+	}
+	le64 := func(o int) uint64 {
+		var v uint64
+		for i := 7; i >= 0; i-- {
+			v = v<<8 | uint64(b[o+i])
+		}
+		return v
+	}
+	shoff := le64(0x28)
+	shentsize := int(b[0x3a]) | int(b[0x3b])<<8
+	shnum := int(b[0x3c]) | int(b[0x3d])<<8
+	if shentsize != 64 || shnum == 0 || shoff > uint64(len(b)) || int(shoff)+shnum*64 > len(b) {
+		return b
+	}
+	out := append([]byte{}, b...)
+	sec := int(shoff) + mod(m.A, shnum)*64
+	fieldOff := []int{0x18, 0x20, 0x28, 0x38}[mod(m.B, 4)]
+	val := elfHostile[0]
+	if len(m.S) > 0 {
+		val = elfHostile[mod(int(m.S[0]), len(elfHostile))]
+	}
+	for i := 0; i < 8; i++ {
+		out[sec+fieldOff+i] = byte(val >> (8 * uint(i)))
+	}
+	return out
+}
+
+// elfSections returns the number of section headers op "elfsec" can address (0: not such a file).
+func elfSections(b []byte) int {
+	if len(b) < 64 || string(b[:4]) != "\x7fELF" || b[4] != 2 || b[5] != 1 {
+		return 0
+	}
+	shentsize := int(b[0x3a]) | int(b[0x3b])<<8
+	shnum := int(b[0x3c]) | int(b[0x3d])<<8
+	if shentsize != 64 {
+		return 0
+	}
+	return shnum
 }
